@@ -16,18 +16,26 @@ From SNT Require Import Base.Outcome Base.Report IO.IOQueue IO.TermIO IO.PollLoo
 Import ListNotations.
 Local Open Scope N_scope.
 
+(* what happens while the thread sits in the poll: nothing, a wake() from another thread after d
+   ms, a SIGWINCH delivered to this thread after d ms (select fails with EINTR) *)
+Inductive dur := DNone | DWake (d : N) | DWinch (d : N).
+
 Inductive act :=
-| AWake (n : N) | AIn (toks : list N) | AWinch | ATerm | AWrite (len : N) | APause (b : bool)
-| APoll (tmo : option N) (send pending : N).   (* observed after the poll: stats.send, frames_pending() *)
+| AWake (n : N) | AIn (toks : list N) | AWinch | ATerm | AWrite (len : N) | APause (b : bool) | AHup
+| APoll (tmo : option N) (send pending elapsed : N) (during : dur).
+  (* observed after the poll: stats.send, frames_pending(), wall-clock milliseconds *)
+
+Inductive ekind := EDrop | EDropPaused | EHup.
 
 (* poll results: Wake, Resize, key/token, None, quit error, other error, OH = an infinite poll that
    had not returned after two seconds although the script left an event outstanding *)
 Inductive pobs := OW | OR | OK (t : N) | ON | OQ | OE | OH.
 
 Inductive c17_case :=
-| CS (acts : list act) (obs : list pobs) (end_paused restored closing : bool)
-| CT (requested seen other : N) (last quiet : bool)
-| CB (ms : N) (wake : bool).
+| CS (acts : list act) (obs : list pobs) (e : ekind) (restored closing : bool)
+| CR (acts : list act) (obs : list pobs) (via : pobs) (restored closing : bool)
+    (* as CS, but the session is left through Terminal::run / run_render returning `via` *)
+| CT (requested seen other : N) (last quiet : bool).
 
 Definition pobs_eqb (a b : pobs) : bool :=
   match a, b with
@@ -65,12 +73,20 @@ Fixpoint resched (fuel : nat) (q : queue N) (d : N) (count : nat) : list (option
       else []
   end.
 
-Definition sched_for (tmo : option N) (s : st) (send pending : N) : list (round_env N) :=
+Definition during_rounds (du : dur) : list (round_env N) :=
+  match du with
+  | DNone => []
+  | DWake _ => [mk_round false [MWake] None]
+  | DWinch _ => [mkR false [MWinch] true None false [] [] [] 1024]     (* EINTR, then the next select *)
+  end.
+
+Definition sched_for (tmo : option N) (s : st) (send pending : N) (du : dur) : list (round_env N) :=
   let q := flush (tq (io s)) in
   let d := send - N.of_nat (sent (io s)) in
   let accepts := resched (2 * chunks_count q + 4) q d (N.to_nat pending) in
   let expired0 := match tmo with Some 0 => true | _ => false end in
-  map (fun a => mk_round expired0 [] a) accepts
+  during_rounds du
+  ++ map (fun a => mk_round expired0 [] a) accepts
   ++ match tmo with
      | Some 0 => repeat (mk_round true [] None) 3
      | Some _ => repeat (mk_round false [] None) 4 ++ repeat (mk_round true [] None) 2
@@ -100,15 +116,16 @@ Fixpoint model_run (s : st) (paused : bool) (acts : list act) (obs : list pobs) 
       | ATerm => model_run (arrive s MTerm) paused rest obs
       | AWrite len =>
           let t := io s in
-          model_run (upd_io s (mkT (write (tq t) (repeat 0 (N.to_nat len))) (tty t) (sent t)))
+          model_run (upd_io s (mkT (write (tq t) (N.iter len (cons 0) [])) (tty t) (sent t)))
                     paused rest obs
+      | AHup => model_run (arrive s MHup) paused rest obs
       | APause b => model_run s b rest obs
-      | APoll tmo send pending =>
+      | APoll tmo send pending _ du =>
           match obs with
           | [] => None
           | o :: obs' =>
               let finite := match tmo with Some _ => true | None => false end in
-              let '(r, s', _) := poll finite s (sched_for tmo s send pending) in
+              let '(r, s', _) := poll finite s (sched_for tmo s send pending du) in
               match res_obs r with
               | Some o' => if pobs_eqb o o' then model_run s' paused rest obs' else None
               | None => None
@@ -126,15 +143,19 @@ Definition dispose_sched (paused : bool) : list (round_env N) :=
 Definition ends_with (l suffix : list N) : bool :=
   nlist_eqb (skipn (length l - length suffix) l) suffix.
 
-Definition model_case (acts : list act) (obs : list pobs) (end_paused restored closing : bool) : bool :=
+Definition model_case (acts : list act) (obs : list pobs) (e : ekind) (restored closing : bool) : bool :=
   match model_run (opened 7 8) false acts obs with
   | None => false
   | Some (s, _) =>
-      match dispose is_da closing_seq 40 s (dispose_sched end_paused) with
-      | None => false
-      | Some s' =>
-          Bool.eqb restored (cur s' =? saved s')
-          && Bool.eqb closing (ends_with (tty (io s')) closing_seq)
+      match e with
+      | EHup => true      (* the master is gone: neither settings nor delivery can be observed *)
+      | _ =>
+          match dispose is_da closing_seq 40 s (dispose_sched (match e with EDropPaused => true | _ => false end)) with
+          | None => false
+          | Some s' =>
+              Bool.eqb restored (cur s' =? saved s')
+              && Bool.eqb closing (ends_with (tty (io s')) closing_seq)
+          end
       end
   end.
 
@@ -148,34 +169,53 @@ Definition nothing_outstanding (o : outstanding) : bool :=
   negb (o_wake o) && negb (o_winch o) && negb (o_term o)
   && match o_keys o with [] => true | _ => false end.
 
-Fixpoint spec_run (o : outstanding) (acts : list act) (obs : list pobs) : bool :=
+Definition slack : N := 1000.       (* milliseconds of scheduling noise tolerated on a loaded machine *)
+
+Definition timely (tmo : option N) (du : dur) (was_owed : bool) (elapsed : N) : bool :=
+  match tmo, du with
+  | Some ms, _ => elapsed <=? ms + slack                      (* a finite poll returns by its timeout *)
+  | None, DWake d | None, DWinch d => elapsed <=? d + slack   (* the request ends the infinite poll *)
+  | None, DNone => if was_owed then elapsed <=? slack else true
+  end.
+
+Definition owes (o : outstanding) : bool := negb (nothing_outstanding o).
+
+Fixpoint spec_run (o : outstanding) (hup : bool) (acts : list act) (obs : list pobs) : bool :=
   match acts with
   | [] => match obs with [] => true | _ => false end
   | a :: rest =>
       match a with
-      | AWake n => spec_run (mkO true (o_may o + n) (o_winch o) (o_wmay o) (o_term o) (o_keys o)) rest obs
-      | AIn toks => spec_run (mkO (o_wake o) (o_may o) (o_winch o) (o_wmay o) (o_term o) (o_keys o ++ toks)) rest obs
-      | AWinch => spec_run (mkO (o_wake o) (o_may o) true (o_wmay o + 1) (o_term o) (o_keys o)) rest obs
-      | ATerm => spec_run (mkO (o_wake o) (o_may o) (o_winch o) (o_wmay o) true (o_keys o)) rest obs
-      | AWrite _ | APause _ => spec_run o rest obs
-      | APoll _ _ _ =>
+      | AWake n => spec_run (mkO true (o_may o + n) (o_winch o) (o_wmay o) (o_term o) (o_keys o)) hup rest obs
+      | AIn toks => spec_run (mkO (o_wake o) (o_may o) (o_winch o) (o_wmay o) (o_term o) (o_keys o ++ toks)) hup rest obs
+      | AWinch => spec_run (mkO (o_wake o) (o_may o) true (o_wmay o + 1) (o_term o) (o_keys o)) hup rest obs
+      | ATerm => spec_run (mkO (o_wake o) (o_may o) (o_winch o) (o_wmay o) true (o_keys o)) hup rest obs
+      | AWrite _ | APause _ => spec_run o hup rest obs
+      | AHup => spec_run o true rest obs
+      | APoll tmo _ _ elapsed du =>
+          (* a request issued while the thread sits in the poll is owed like any other *)
+          let o := match du with
+                   | DNone => o
+                   | DWake _ => mkO true (o_may o + 1) (o_winch o) (o_wmay o) (o_term o) (o_keys o)
+                   | DWinch _ => mkO (o_wake o) (o_may o) true (o_wmay o + 1) (o_term o) (o_keys o)
+                   end in
           match obs with
           | [] => false
           | ob :: obs' =>
+              timely tmo du (owes o) elapsed &&
               match ob with
               | OW => (0 <? o_may o)
-                      && spec_run (mkO false (o_may o - 1) (o_winch o) (o_wmay o) (o_term o) (o_keys o)) rest obs'
+                      && spec_run (mkO false (o_may o - 1) (o_winch o) (o_wmay o) (o_term o) (o_keys o)) hup rest obs'
               | OR => (0 <? o_wmay o)
-                      && spec_run (mkO (o_wake o) (o_may o) false (o_wmay o - 1) (o_term o) (o_keys o)) rest obs'
+                      && spec_run (mkO (o_wake o) (o_may o) false (o_wmay o - 1) (o_term o) (o_keys o)) hup rest obs'
               | OK t => match o_keys o with
-                        | k :: ks => (k =? t) && spec_run (mkO (o_wake o) (o_may o) (o_winch o) (o_wmay o) (o_term o) ks) rest obs'
+                        | k :: ks => (k =? t) && spec_run (mkO (o_wake o) (o_may o) (o_winch o) (o_wmay o) (o_term o) ks) hup rest obs'
                         | [] => false
                         end
-              (* a SIGWINCH flagged together with the termination signal is not owed any more:
-                 the session is over (its flag stays set, design/C17.md) *)
-              | OQ => o_term o && spec_run (mkO (o_wake o) (o_may o) false (o_wmay o) false (o_keys o)) rest obs'
-              | ON => nothing_outstanding o && spec_run o rest obs'
-              | OE | OH => false
+              (* a quit error needs a termination signal or a hang-up *)
+              | OQ => (o_term o || hup) && spec_run (mkO (o_wake o) (o_may o) (o_winch o) (o_wmay o) false (o_keys o)) hup rest obs'
+              | ON => nothing_outstanding o && negb hup && spec_run o hup rest obs'
+              | OE => hup && spec_run o hup rest obs'       (* an i/o error is only excused by a tty that is gone *)
+              | OH => false
               end
           end
       end
@@ -183,16 +223,23 @@ Fixpoint spec_run (o : outstanding) (acts : list act) (obs : list pobs) : bool :
 
 Definition c17_check (c : c17_case) : bool * bool :=
   match c with
-  | CS acts obs end_paused restored closing =>
-      (model_case acts obs end_paused restored closing,
-       spec_run (mkO false 0 false 0 false []) acts obs && restored && closing)
+  | CS acts obs e restored closing =>
+      (model_case acts obs e restored closing,
+       spec_run (mkO false 0 false 0 false []) false acts obs
+       && match e with
+          | EDrop => restored && closing
+          | EDropPaused => restored       (* domain assumption: the closing sequence needs a peer that reads *)
+          | EHup => true
+          end)
+  | CR acts obs via restored closing =>
+      (* left through run (handler error) or run_render (quit): whatever happened inside, the drop
+         afterwards restores the settings and delivers the closing sequence *)
+      (model_case acts obs EDrop restored closing,
+       spec_run (mkO false 0 false 0 false []) false acts obs && restored && closing
+       && match via with OQ | OE => true | _ => false end)
   | CT requested seen other last quiet =>
       (* coalescing allowed, loss and invention impossible; a request after the storm is seen *)
       (true, (1 <=? seen) && (seen <=? requested) && (other =? 0) && last && quiet)
-  | CB ms wake =>
-      (* the model predicts that this poll blocks while the peer does not read; the property
-         would want it back promptly *)
-      (negb (ms <? 100), (ms <? 100) && wake)
   end.
 
 Definition c17_report := report c17_check.
